@@ -784,6 +784,179 @@ def m_pp_sequence(rng, name, data, corp):
     return b"\n".join(lines)
 
 
+# ---------------------------------------------------------------------------
+# cycles of 2-4 macros, followed by uses that reach the string-level expander (#if, #elif, the value of a later
+# object-like #define, __has_include) and the token-level one (plain use, call)
+# ---------------------------------------------------------------------------
+
+CYCLE_USES = ("if", "elif", "define_then_use", "define_then_if", "has_include", "plain", "call", "ifdef_if")
+
+
+def macro_cycle_lines(names, kinds, decorate=None):
+    """#define lines: names[i] expands to (a call of) names[i+1], the last one back to names[0].
+    kinds[i] in 'o' (object-like) / 'f' (function-like)."""
+    out = []
+    n = len(names)
+    for i in range(n):
+        nxt = names[(i + 1) % n]
+        ref = nxt + (b"(a)" if kinds[(i + 1) % n] == "f" and kinds[i] == "f" else
+                     (b"(1)" if kinds[(i + 1) % n] == "f" else b""))
+        body = ref if decorate is None else decorate(ref)
+        head = names[i] + (b"(a)" if kinds[i] == "f" else b"")
+        out.append(b"#define " + head + b" " + body)
+    return out
+
+
+def macro_cycle_use(use, names, kinds):
+    m = names[0] + (b"(1)" if kinds[0] == "f" else b"")
+    m1 = names[1 % len(names)] + (b"(2)" if kinds[1 % len(names)] == "f" else b"")
+    if use == "if":
+        return [b"#if " + m, b"int cyc_if;", b"#endif"]
+    if use == "elif":
+        return [b"#if 0", b"#elif " + m1, b"int cyc_elif;", b"#endif"]
+    if use == "define_then_use":
+        return [b"#define CYC_X " + m, b"int cyc_v = CYC_X;"]
+    if use == "define_then_if":
+        return [b"#define CYC_Y (" + m1 + b" + 1)", b"#if CYC_Y", b"#endif"]
+    if use == "has_include":
+        return [b"#if __has_include(" + names[0] + b")", b"#endif", b"#include " + names[0]]
+    if use == "plain":
+        return [b"int cyc_p = " + names[0] + b";"]
+    if use == "call":
+        return [b"int cyc_c = " + names[0] + b"(1, 2);"]
+    if use == "ifdef_if":
+        return [b"#ifdef " + names[0], b"#if defined(" + names[0] + b") && " + m + b" == " + m1, b"#endif", b"#endif"]
+    raise ValueError(use)
+
+
+def macro_cycle_files():
+    """seed-independent: cycle lengths 2..4 x {all object-like, all function-like, alternating} x every use"""
+    out = []
+    for n in (2, 3, 4):
+        for pat in ("o", "f", "of"):
+            kinds = [pat[i % len(pat)] for i in range(n)]
+            for use in CYCLE_USES:
+                names = [b"CY%d" % i for i in range(n)]
+                lines = macro_cycle_lines(names, kinds) + macro_cycle_use(use, names, kinds)
+                out.append(("cycle_%d%s_%s" % (n, pat, use), b"\n".join(lines) + b"\n"))
+    return out
+
+
+def m_macro_cycle(rng, name, data, corp):
+    """define a cycle of 2-4 macros at random line positions of the file (names taken from the file half of the
+    time, so that existing macros and identifiers get drawn into the cycle), then 1-3 uses later on"""
+    toks = _toks(name, data)
+    ids = sorted({t[1] for t in toks if t[0] == "id"})
+    n = rng.randrange(2, 5)
+    names = []
+    for i in range(n):
+        if ids and rng.random() < 0.4:
+            c = rng.choice(ids)
+        else:
+            c = b"CY%d" % i
+        if c not in names:
+            names.append(c)
+    if len(names) < 2:
+        names = [b"CYA", b"CYB"]
+    kinds = [rng.choice("of") for _ in names]
+    deco = rng.choice((None, None, lambda r: b"(" + r + b" + 1)", lambda r: r + b" " + r, lambda r: b"#a " + r if False else b"1 ? " + r + b" : 0"))
+    defs = macro_cycle_lines(names, kinds, deco)
+    rng.shuffle(defs)
+    lines = data.split(b"\n")
+    pos = sorted(rng.randrange(len(lines) + 1) for _ in defs)
+    for i in reversed(range(len(defs))):
+        lines.insert(pos[i], defs[i])
+    at = pos[-1] + len(defs)
+    for _ in range(rng.randrange(1, 4)):
+        use = macro_cycle_use(rng.choice(CYCLE_USES), names, kinds)
+        at = min(len(lines), at + rng.randrange(0, 3))
+        lines[at:at] = use
+        at += len(use)
+    return b"\n".join(lines)
+
+
+# ---------------------------------------------------------------------------
+# several files on one command line
+# ---------------------------------------------------------------------------
+
+MULTI_BROKEN = [b"int broken syntax here (;\n", b"struct { int a\n", b"#if 1\nint unterminated_if;\n", b"}\n",
+                b"class Q { public: int f( };\n", b"int x = ;\n", b"template<class T> struct;\n"]
+GUARDS = ("once", "guard", "none")
+MULTI_PATTERNS = ("independent", "broken_includes_others", "others_include_broken", "chain", "mutual")
+
+
+def _guarded(fname, guard, body):
+    if guard == "once":
+        return b"#pragma once\n" + body
+    if guard == "guard":
+        g = fname.upper().replace(b".", b"_")
+        return b"#ifndef " + g + b"\n#define " + g + b"\n" + body + b"#endif\n"
+    return body
+
+
+def multi_files(n, broken, guard, pattern, broken_text, bodies=None):
+    """-> (files, args): files = [(name, bytes)], args = command-line order.  File number `broken` holds
+    broken_text; the others are valid.  pattern says who includes whom."""
+    names = [b"f%d.h" % i for i in range(n)]
+    files = []
+    for i in range(n):
+        inc = []
+        others = [j for j in range(n) if j != i]
+        if pattern == "broken_includes_others" and i == broken:
+            inc = others
+        elif pattern == "others_include_broken" and i != broken:
+            inc = [broken]
+        elif pattern == "chain" and i + 1 < n:
+            inc = [i + 1]
+        elif pattern == "mutual":
+            inc = others
+        body = b"".join(b"#include \"" + names[j] + b"\"\n" for j in inc)
+        body += (bodies[i] if bodies else b"struct S%d { int m%d; };\nint g%d(int a);\n" % (i, i, i))
+        if i == broken:
+            body += broken_text
+        # an unguarded file in a mutual pattern would recurse to the fd limit: legal, but slow and off-topic
+        g = guard if not (pattern == "mutual" and guard == "none") else "guard"
+        files.append((names[i], _guarded(names[i], g, body)))
+    return files, names
+
+
+def multi_enumeration():
+    """seed independent: 2-3 files, the broken one at every position, every guard kind, every include pattern"""
+    out = []
+    for n in (2, 3):
+        for broken in range(n):
+            for guard in GUARDS:
+                for pattern in MULTI_PATTERNS:
+                    files, args = multi_files(n, broken, guard, pattern, MULTI_BROKEN[(n + broken) % len(MULTI_BROKEN)])
+                    out.append(("multi_n%d_b%d_%s_%s" % (n, broken, guard, pattern), files, args, broken))
+    return out
+
+
+def gen_multi(rng, corp):
+    """-> (label, files, args, primary index): 2-3 files with random guards/patterns; one file is broken (a fixed
+    syntax error or a mutated corpus file); the command line lists them in random order, sometimes one twice or one
+    not at all (it is then only reached through #include)."""
+    n = rng.randrange(2, 4)
+    broken = rng.randrange(n)
+    guard = rng.choice(GUARDS)
+    pattern = rng.choice(MULTI_PATTERNS)
+    if rng.random() < 0.5:
+        btext = rng.choice(MULTI_BROKEN)
+        label = "multi_syntax"
+    else:
+        m, s, btext = gen_source(rng, [c for c in corp if len(c[1]) < 3000] or corp, stack_p=0.0)
+        label = "multi_" + m
+    files, args = multi_files(n, broken, guard, pattern, btext)
+    args = list(args)
+    rng.shuffle(args)
+    r = rng.random()
+    if r < 0.15:
+        args.append(rng.choice(args))
+    elif r < 0.3 and len(args) > 1:
+        args.pop(rng.randrange(len(args)))
+    return label, files, args, broken
+
+
 def m_dict_compose(rng, name, data, corp):
     """a small file made only of dictionary items around a few valid lines."""
     lines = []
@@ -820,6 +993,7 @@ MUTATORS = {
     "newlines": (m_newlines, 3),
     "dict_compose": (m_dict_compose, 8),
     "pp_sequence": (m_pp_sequence, 10),
+    "macro_cycle": (m_macro_cycle, 8),
 }
 _MUT_NAMES = sorted(MUTATORS)
 _MUT_WEIGHTS = [MUTATORS[n][1] for n in _MUT_NAMES]
